@@ -44,7 +44,7 @@ def _post_terms(sh, b, a, o, obs):
     return u, ssum(u.values())
 
 
-def bayes(sx, shape, sym_obs_row=None, belief_sel=None, declared_obs=False):
+def bayes(sx, shape, sym_obs_row=None, belief_sel=None, declared_obs=False, permuted=False):
     sh = SHAPES[shape]
     L, AL, OL = sh.slabels, sh.alabels, sh.olabels
     nO = len(OL)
@@ -76,7 +76,16 @@ def bayes(sx, shape, sym_obs_row=None, belief_sel=None, declared_obs=False):
         bdist = DictDistribution({L[s]: b[s] for s in range(sh.S)})
         bvec = rnp.array(b, dtype=float) if not sx.sym else __import__('symx.symnp', fromlist=['SymArray']).SymArray(b)
         bmdp = BeliefMDP(pomdp)
-        bel = Belief(tuple(L), tuple(b))
+        if permuted:
+            # a belief object whose states are listed in another order than the model's state list (rotated): same belief
+            order = list(range(1, sh.S)) + [0]
+            bel = Belief(tuple(L[i] for i in order), tuple(b[i] for i in order))
+        else:
+            bel = Belief(tuple(L), tuple(b))
+
+        def at(blf, ns):
+            """probability a Belief object gives to state number ns, read through its own state labels"""
+            return blf.probs[list(blf.states).index(L[ns])] if L[ns] in blf.states else 0
         for a in range(sh.A):
             pred = pomdp.predictive_observation_dist(bdist, AL[a])
             pred_items = dict(pred.items())
@@ -122,16 +131,16 @@ def bayes(sx, shape, sym_obs_row=None, belief_sel=None, declared_obs=False):
                             return 0
                     nag = _P(pomdp).next_agentstate(bel, AL[a], OL[o])
                     for ns in range(sh.S):
-                        sx.prove_eq(nag.probs[ns], items.get(L[ns], 0), f'agentstate-update-is-posterior[{a},{o},{ns}]')
+                        sx.prove_eq(at(nag, ns), items.get(L[ns], 0), f'agentstate-update-is-posterior[{a},{o},{ns}]')
                     # belief MDP: the branch of o carries probability tot and the posterior
                     # (one merged condition, no forking: comparisons of rational functions stay out of the path condition)
-                    match = core.sany([core.sall([sx.close(nb.probs[ns], items.get(L[ns], 0)) for ns in range(sh.S)]) for nb, p in nb_items])
+                    match = core.sany([core.sall([sx.close(at(nb, ns), items.get(L[ns], 0)) for ns in range(sh.S)]) for nb, p in nb_items])
                     sx.prove(match, f'belief-mdp-has-posterior-branch[{a},{o}]')
             sx.prove_eq(want_tot, 1, f'predictive-sums-to-1[{a}]')
             sx.prove_eq(ssum(pred_items.values()), 1, f'predictive-dist-sums-to-1[{a}]')
             # probability-weighted mean of next beliefs = one-step state prediction
             for ns in (range(sh.S) if sym_obs_row is None else []):   # (degree-3 rational identity when an observation row is symbolic: first harness only)
-                mean = ssum(p * nb.probs[ns] for nb, p in nb_items)
+                mean = ssum(p * at(nb, ns) for nb, p in nb_items)
                 want = ssum(b[s] * c(sh.rows[(s, a)].get(ns, 0)) for s in range(sh.S) if sh.rows[(s, a)].get(ns, 0) != 0)
                 sx.prove_eq(mean, want, f'belief-mdp-mean-is-state-prediction[{a},{ns}]', tol=F(1, 10**7))
             r = bmdp.reward(bel, AL[a], None)
@@ -144,7 +153,7 @@ def bayes(sx, shape, sym_obs_row=None, belief_sel=None, declared_obs=False):
         (ib, ip), = list(b0.items())
         sx.prove_eq(ip, 1, 'belief-mdp-initial-deterministic')
         for s in range(sh.S):
-            sx.prove_eq(ib.probs[s], c(sh.s0.get(s, 0)), f'belief-mdp-initial-belief[{s}]')
+            sx.prove_eq(at(ib, s), c(sh.s0.get(s, 0)), f'belief-mdp-initial-belief[{s}]')
         sx.prove(tuple(bmdp.actions(bel)) == tuple(pomdp.action_list), 'belief-mdp-actions')
         sx.observe('pred', [pred_items.get(OL[o], 0) for o in range(nO)])
 
@@ -154,6 +163,7 @@ def jobs(tier):
     for i, sh in enumerate(SHAPES):
         yield ('bayes', dict(shape=i), dict(o, cost=5))
         yield ('bayes', dict(shape=i, declared_obs=True), dict(o, cost=5))
+        yield ('bayes', dict(shape=i, permuted=True), dict(o, cost=5))
         rows = sorted(sh.obs)
         for k in (rows[:2] if tier == 'quick' else rows):
             for bs in ([0, 1] if tier == 'quick' else [0, 1, 2, 3]):
